@@ -42,6 +42,41 @@ TB_STUB = ['kani::stub of bytes::BytesMut::reserve_inner by a function that asse
            'real function is a proof obligation), used to keep the re-allocation path out of the formula']
 
 PROPS = {
+    'C11': dict(
+        level='proof',
+        verus_units=['broker_channel', 'broker_service', 'broker_conn_state', 'broker_object', 'broker_serial_map', 'broker_bus_listener',
+                     'broker_handlers_channel', 'broker_handlers_registry', 'broker_handlers_subs', 'broker_handlers_routing',
+                     'broker_handlers_bus_listener', 'broker_handlers_shutdown'],
+        trusted_base=TB_VERUS + TB_REGISTRY + TB_CONN + [
+            'Broker::remove_channel_end is ASSUMED (closure capturing &mut self); BusListener::{add_filter, remove_filter} are '
+            'ASSUMED on the filter set only (`|=` on bool, iterator adapters), so the cached flags behind '
+            'specific_objects()/specific_services() and their unreachable!() arms are NOT decided',
+        ],
+        assumptions=[
+            'panic-freedom is decided per verified handler: Verus proves every expect("inconsistent state"), unreachable!(), '
+            'debug_assert!() and arithmetic overflow unreachable for ALL request parameters (stale, foreign, duplicate cookies and '
+            'serials included) in every state that satisfies the invariants; the invariants are preserved by every verified '
+            'handler. Handlers not verified (and so not covered): handle_event, handle_message (the dispatch itself), '
+            'process_loop_result, emit_event, emit_bus_event, start_bus_listener, create_channel, claim_channel_end, '
+            'create_bus_listener, sync, query_service_version, query_service_info, the introspection handlers',
+            'hangs: termination of the loops is proved for the for-loops over finite collections (Verus decreases on the '
+            'iterator); the broker loop itself (async) is not',
+        ],
+        undecided_clauses=[
+            'panics / wrong state in the handlers listed as not verified; the message dispatch (handle_message) and the '
+            'deferred-work loop (process_loop_result)',
+            'whether the broker answers, ignores or closes is read off the handler\'s result (Err closes the connection) and the '
+            'tables; the reply on the wire is not in the state model',
+            'a well-behaved connection is still served correctly afterwards: follows from invariant preservation for the verified '
+            'handlers only',
+        ],
+        explanation='for 34 handlers and helpers of broker.rs on their verbatim text (channel, registry, subscription, call '
+                    'routing, bus-listener, teardown) and the leaf structures they delegate to: under the registry / channel / '
+                    'bus-listener invariants no expect(), unreachable!(), debug_assert!() or overflow can fire for ANY request - '
+                    'stale or foreign cookies and serials, duplicates, out-of-state requests are answered, ignored or close the '
+                    'sender - the invariants hold again afterwards, and the frame conditions state that objects, calls and '
+                    'channels of other connections change only in the ways the contracts spell out',
+    ),
     'C09': dict(
         level='proof',
         verus_units=['broker_state', 'broker_conn_id', 'broker_handlers_shutdown', 'broker_handlers_registry', 'broker_handlers_subs', 'broker_handlers_routing',
